@@ -3,6 +3,8 @@ package utils
 import (
 	"runtime"
 	"time"
+
+	"github.com/zishang520/engine.io/v2/verifhook"
 )
 
 type Timer struct {
@@ -61,6 +63,9 @@ func ClearTimeout(timer *Timer) {
 
 func (t *Timer) Stop() {
 	if t.timer.Stop() {
+		if verifhook.Enabled {
+			verifhook.Point("timer.Stop.afterStop", t)
+		}
 		t.stopCh <- struct{}{}
 	}
 }
@@ -75,6 +80,9 @@ func SetInterval(fn func(), sleep time.Duration) *Timer {
 		for {
 			select {
 			case <-timer.timer.C:
+				if verifhook.Enabled {
+					verifhook.Point("timer.interval.afterTick", timer)
+				}
 				timer.timer.Reset(timer.sleep)
 				go fn()
 			case <-timer.stopCh:
